@@ -192,6 +192,18 @@ func followFull(extra int, then string) scenario {
 	return b.sc
 }
 
+// F19 with one follow-up, forced at the schedule point ws.readerForward (reader
+// goroutine, just before its send on clientInputs). Needs proposed_fixes/C15-hooks.diff;
+// without it the point is never reached and the scenario is discarded.
+func hookReaderForward(p int) scenario {
+	return newB("hook-follow|end", 1, 1).open(0, 0).lock(0, 0, 1, p).
+		add(op{S: 0, K: "gate", P: "ws.readerForward"}).
+		add(op{S: 0, K: "sendn", C: 0, V: 1}).
+		add(op{S: 0, K: "waithit"}).
+		end(0, 0).add(op{S: 0, K: "waitwriter"}).
+		add(op{S: 0, K: "ungate"}).sc
+}
+
 // follow-up after the stream was ended and the close was read
 func followAfterEnd(p int) scenario {
 	return newB("follow-after-end", 1, 1).open(0, 0).lock(0, 0, 1, p).end(0, 0).recv(0).
@@ -328,6 +340,7 @@ func genAll(rng *rand.Rand, tier string) []interface{} {
 		add(followThenLeave(p, []string{"close", "drop"}[rng.Intn(2)]))
 	}
 	add(followFull(0, "end"))
+	add(hookReaderForward(rng.Intn(3)))
 	add(followFull(rng.Intn(3), "close"))
 	add(followFull(1+rng.Intn(3), "none"))
 	nr := 6
